@@ -1,0 +1,15 @@
+//go:build verif
+// +build verif
+
+package stack
+
+import "github.com/skx/evalfilter/v2/object"
+
+// VerifPeek returns the n-th entry from the top of the stack (0 = top)
+// without removing it, or nil when the stack is not that deep.
+func (s *Stack) VerifPeek(n int) object.Object {
+	if n < 0 || n >= len(s.entries) {
+		return nil
+	}
+	return s.entries[len(s.entries)-1-n]
+}
